@@ -188,6 +188,32 @@ func checkDoShutdown(p *Prog, r *Report, ru *Rule, a *connectAnchors) {
 					okk = true
 				}
 			}
+			/* And promptly: nothing which waits for other parties (a
+			send to a listener, another wait) stands between the start
+			of this goroutine and the store — only the wait for the
+			context to end and the lock. */
+			var late ssa.Instruction
+			for _, s := range stores {
+				if !instrDominates(s, w) {
+					continue
+				}
+				eachInstr(fn, func(j ssa.Instruction) {
+					cj, isCall := j.(*ssa.Call)
+					if !isCall || j == s || !canReach(locOf(j), s) {
+						return
+					}
+					callee := cj.Common().StaticCallee()
+					if nil == callee || !inModule(callee) {
+						return
+					}
+					if mayWaitForOthers(callee, 0) {
+						late = j
+					}
+				})
+			}
+			if okk && nil != late {
+				ru.Bad(c+":promptly", posOf(late), "the shutdown flag is set only after %s has returned, which can wait for other parties (a channel send): until then streams are still admitted after shutdown began", calleeName(callCommon(late)))
+			}
 			if okk {
 				ru.OK(c, posOf(w), "noMore=true is stored (under the lock, see C01.guarded-by) before wg.Wait")
 			} else {
@@ -591,4 +617,40 @@ func checkEventsLossless(p *Prog, r *Report, ru *Rule) {
 	if n < 2 {
 		ru.Unproven("event sends", token.NoPos, "%d sends of Event values found, at least 2 expected (into the broker's queue and out to the listeners)", n)
 	}
+}
+
+// mayWaitForOthers: f (or a module function it calls) sends on a channel
+// outside a select which also watches a context's Done channel — it can block
+// for as long as the receiver pleases.
+func mayWaitForOthers(f *ssa.Function, depth int) bool {
+	if nil == f || nil == f.Blocks || depth > 3 {
+		return false
+	}
+	out := false
+	for _, g := range withAnons(f) {
+		eachInstr(g, func(i ssa.Instruction) {
+			switch x := i.(type) {
+			case *ssa.Send:
+				out = true
+			case *ssa.Select:
+				if !x.Blocking {
+					return
+				}
+				sends := false
+				for _, st := range x.States {
+					if types.SendOnly == st.Dir {
+						sends = true
+					}
+				}
+				if sends {
+					out = true
+				}
+			case *ssa.Call:
+				if sc := x.Common().StaticCallee(); nil != sc && inModule(sc) && sc != f && mayWaitForOthers(sc, depth+1) {
+					out = true
+				}
+			}
+		})
+	}
+	return out
 }
